@@ -1233,10 +1233,22 @@ def _get_sm(model, model_kw=None):
     return get_model(model, **(model_kw or {}))
 
 
-def _mk_lf(model, tree_s, aln, rules=(), model_kw=None):
+# rate heterogeneity / bins: the likelihood function then owns optimisable leaf definitions that are NOT user-visible
+# parameter names (`rate_partition`, `kappa_factor_partition` of the "free" distribution) next to visible ones (bprobs,
+# rate_shape of the gamma distribution)
+BIN_CONFIGS = [
+    dict(model_kw=dict(ordered_param="rate", distribution="free"), bins=2),
+    dict(model_kw=dict(ordered_param="rate", distribution="free"), bins=3),
+    dict(model_kw=dict(ordered_param="rate", distribution="gamma"), bins=4),
+    dict(model_kw=dict(ordered_param="kappa", distribution="free"), bins=2, needs="kappa"),
+]
+
+
+def _mk_lf(model, tree_s, aln, rules=(), model_kw=None, bins=None):
     from cogent3 import make_tree
 
-    lf = _get_sm(model, model_kw).make_likelihood_function(make_tree(tree_s))
+    extra = dict(bins=bins) if bins else {}
+    lf = _get_sm(model, model_kw).make_likelihood_function(make_tree(tree_s), **extra)
     lf.set_alignment(aln)
     for r in rules:
         lf.set_param_rule(**r)
@@ -1476,6 +1488,31 @@ def _gs_cases(budget):
     return cases
 
 
+def _zero_cases(rng, budget):
+    """nested fits in which a parameter sits at EXACTLY 0.0 (the only falsy value a rule can carry): one or two branch
+    lengths held constant at 0 (a polytomy null when the edge is internal; the alternative frees them) or started at 0 and
+    never moved (max_evaluations=0, cross-model pair so that the alternative is richer)"""
+    from cogent3 import make_tree
+
+    cases = []
+    for i in range(4 if budget < 8 else 12):
+        tree_s, taxa = rng.choice(TREES[1:])
+        names = [n for n in make_tree(tree_s).get_node_names(includeself=False)]
+        edges = sorted(rng.sample(names, rng.randint(1, 2)))
+        if i % 2 == 0:
+            a, b = rng.choice([("HKY85", "HKY85"), ("F81", "F81"), ("GTR", "GTR")] + [p for p in NESTED_NUC if _pair_class(*p) == "same"])
+            nr = [dict(par_name="length", edge=e, is_constant=True, value=0.0) for e in edges]
+            me, cfg = rng.choice([5, 40]), "zero-const"
+        else:
+            a, b = rng.choice([p for p in NESTED_NUC if _pair_class(*p) == "same"])
+            nr = [dict(par_name="length", edge=e, init=0.0) for e in edges]
+            me, cfg = 0, "zero-init"
+        cases.append(dict(check="init", null=a, alt=b, null_rules=nr, alt_rules=[], tree=tree_s, taxa=taxa,
+                          start=rng.randrange(0, 2000, 3), length=rng.choice([150, 300]), max_evaluations=me,
+                          cls="zero-length", null_cfg=cfg, zero_edges=edges))
+    return cases
+
+
 def _spec_init(ctx, out, rng, budget):
     pairs = list(NESTED_NUC)
     rng.shuffle(pairs)
@@ -1528,6 +1565,7 @@ def _spec_init(ctx, out, rng, budget):
         cases.append(dict(dict(check="init", tree=TREES[0][0], taxa=TREES[0][1], start=rng.randrange(0, 1500, 3),
                                length=150, max_evaluations=rng.choice([5, 25]), codon=True, cls="codon"), **cc))
     cases += _gs_cases(budget)
+    cases += _zero_cases(rng, budget)
     for case in cases:
         out["evaluations"] += 1
         prob, info = _run_init_case(case)
@@ -1560,7 +1598,7 @@ def _random_start(lf, rng, model):
     rules = []
     for r in lf.get_param_rules():
         n = r["par_name"]
-        if r.get("is_constant") or n == "mprobs":
+        if r.get("is_constant") or n == "mprobs" or isinstance(r.get("init"), dict) or "bin" in r or "bins" in r:
             continue
         v = rng.uniform(0.02, 1.5) if n == "length" else math.exp(rng.uniform(-2.0, 2.5))
         rr = dict(par_name=n, init=v)
@@ -1599,7 +1637,7 @@ def _press_bounds(lf, rng):
 
 def _run_opt_case(case):
     aln = _alignment(case["taxa"], case["start"], case["length"], case.get("codon", False))
-    lf = _mk_lf(case["model"], case["tree"], aln, case.get("rules", ()))
+    lf = _mk_lf(case["model"], case["tree"], aln, case.get("rules", ()), case.get("model_kw"), case.get("bins"))
     import random
 
     starts = _random_start(lf, random.Random(case["start_seed"]), case["model"]) if case.get("start_seed") is not None else None
@@ -1703,6 +1741,21 @@ def _spec_optimise(ctx, out, rng, budget):
                           max_restarts=rng.choice([None, None, 0, 2]),
                           return_calculator=True if rng.random() < 0.2 else None,
                           pressed=rng.randrange(1, 10**6) if rng.random() < 0.25 else None))
+    # rate heterogeneity / bins (hidden optimisable leaf definitions): what the likelihood function reports afterwards
+    # must be what the calculator was left at, so most of these ask for the calculator back
+    for _ in range(16 * budget):
+        tree_s, taxa = rng.choice(TREES[:3])
+        cfg = rng.choice(BIN_CONFIGS)
+        model = rng.choice(["HKY85", "K80"] if cfg.get("needs") == "kappa" else ["JC69", "F81", "HKY85", "TN93", "GTR"])
+        local = rng.choice([True, True, None])
+        cases.append(dict(check="optimise", model=model, model_kw=cfg["model_kw"], bins=cfg["bins"], tree=tree_s, taxa=taxa,
+                          start=rng.randrange(0, 2000, 3), length=rng.choice([150, 300]), local=local,
+                          max_evaluations=rng.choice([3, 10, 30, 80] if local else [20, 60, 200]), rules=[],
+                          tolerance=rng.choice([1e-6, 1e-3]), seed=rng.randrange(10**6),
+                          start_seed=rng.randrange(10**6) if rng.random() < 0.5 else None,
+                          limit_action=rng.choice(["ignore", "warn", "raise"]),
+                          global_tolerance=None if local else 1.0, max_restarts=None,
+                          return_calculator=True if rng.random() < 0.7 else None, pressed=None))
     cases += _on_bound_cases(budget)
     if budget >= 8:
         cases.append(dict(check="optimise", model="MG94HKY", tree=TREES[0][0], taxa=TREES[0][1], start=300, length=150, codon=True,
@@ -1713,6 +1766,7 @@ def _spec_optimise(ctx, out, rng, budget):
         mode = _mode(case["local"])
         bump(out, "opt_mode", mode)
         bump(out, "opt_model", case["model"])
+        bump(out, "opt_bins", f"{case['model_kw'].get('ordered_param')}/{case['model_kw'].get('distribution')}/{case['bins']}" if case.get("bins") else "none")
         bump(out, "opt_max_evaluations", str(case["max_evaluations"]))
         bump(out, "opt_limit_action", case.get("limit_action", "ignore"))
         if case.get("on_bound"):
@@ -2171,7 +2225,8 @@ def spec_check(ctx, budget):
 
 
 def _script_helpers():
-    return dict(alignment=_alignment, mk_lf=_mk_lf, random_start=_random_start, tol=_tol, bounds_problem=_bounds_problem)
+    return dict(alignment=_alignment, mk_lf=_mk_lf, random_start=_random_start, tol=_tol, bounds_problem=_bounds_problem,
+                bin_configs=BIN_CONFIGS)
 
 
 # --------------------------------------------------------------------------
